@@ -30,8 +30,15 @@ def run(ctx):
             scen.append({"id": "case%d.%d" % (i, j), "kind": "case", "cfg": c["cfg"], "responder": c["responder"], "mod": c["mod"], "bits": bits,
                          "nsample": 6 if quick else (256 if c["mod"] == "flip_pad" else 16), "chunk": chunk, "legacy": (i + j) % 3 == 0,
                          "seed": ctx.seed * 10000 + i * 10 + j})
+    # the honest path under every two-segment split around the mark and the MAC of the response (and some elsewhere)
+    cutpos = list(range(-70, 34)) if not quick else [-65, -33, -17, -16, -15, -1, 0, 1, 8, 15, 16, 17, 24, 31, 32, 33]
+    for k, cut in enumerate(cutpos):
+        scen.append({"id": "split%d" % k, "kind": "case", "cfg": "right", "responder": "genuine", "mod": "none", "bits": "sample", "nsample": 1,
+                     "chunk": "split", "cut": cut, "legacy": k % 3 == 0, "seed": ctx.seed * 10000 + 7000 + k})
     for k in range(2 if quick else 10):
         scen.append({"id": "fresh%d" % k, "kind": "fresh", "n": 32 if quick else 64, "seed": k})
+    for k in range(3 if quick else 20):
+        scen.append({"id": "freshfault%d" % k, "kind": "freshfault", "n": 18 if quick else 45, "seed": ctx.seed * 100 + k})
     binary = ctx.go_build("./cmd/c02")
     traces = ctx.exec_scenarios(binary, scen, "c02", shards=14, timeout=3000)
     if len(traces) != len(scen) and not any(t.get("crashed") for t in traces):
@@ -43,14 +50,14 @@ def run(ctx):
     ctx.sample({"events": traces[-1]["events"][:1]})
     rejected = ctx.validate("Obfs4HandshakeTrace", "Obfs4HandshakeTrace.cfg", traces, label="trace validation", timeout=1800, max_rejects=6)
     ctx.log("%d cases, %d client handshakes (%d established), %d rejected" % (len(cases), ndial, nest, len(rejected)))
-    if nest < 3:
-        raise Inconclusive("the honest case never established: the harness responder is broken")
 
     def reexec(tr):
         t2 = ctx.exec_scenarios(binary, [tr["scenario"]], "re", timeout=900)
         rej = ctx.validate("Obfs4HandshakeTrace", "Obfs4HandshakeTrace.cfg", t2, label="re-validation")
         return rej[0] if rej else None
     ctx.settle(rejected, reexec, lambda tr: "obfs4 client handshake outcome rejected: %s" % json.dumps(tr["reject"]["event"])[:400], attempts=2)
+    if nest < 3 and not ctx.violations:
+        raise Inconclusive("the honest case never established: the harness responder is broken")
     ctx.assumptions += ["symbolic cryptography in the model (unforgeable MAC / AUTH without the key); the harness responder is ref/obfs4's server handshake logic",
                         "a response whose mark was destroyed legitimately keeps the client waiting: the harness then ends the connection and Dial must fail"]
     return ctx.finish("model_checking", extra_cov={"client_handshakes": ndial, "established": nest, "cases": len(cases), "exhaustive": True,
